@@ -42,9 +42,10 @@ prop('C02', COMMON +
      'printer emits for the same operator (both tables read out of MIR discriminant switches). SWAP-TABLE: operand '
      'swapping <=> mirror operator, never for non-commutative operators; `x - n` -> `x + (-n)` only behind n != i32::MIN. '
      'SCOPE-BRACKET: push_scope/pop_scope of every stacked fact context are balanced on all paths, and every recursive '
-     'descent into a nested statement list is bracketed by the same contexts as its sibling descents. '
+     'descent into a nested statement list is bracketed by the same contexts as its sibling descents. COUNTER-SYNC: '
+     'every temp-name counter is synchronised back into the heap on every path before the next one is created. '
      'Does not decide loop closed forms, LICM legality, inlining capture-avoidance or escape analysis.',
-     [const_arith.run, optimizer.run_dce_keep, optimizer.run_fold_table, optimizer.run_swap_table, scope.run_bracket,
+     [const_arith.run, optimizer.run_dce_keep, optimizer.run_fold_table, optimizer.run_swap_table, scope.run_bracket, scope.run_counter_sync,
       TI.make(['T-dce', 'T-conditional_constant_propagation', 'T-inlining', 'T-local_value_numbering',
                'T-scalar_replacement', 'T-unused_name_elimination', 'T-loop_induction_variable_elimination'])])
 
